@@ -1,5 +1,5 @@
 """C05 result columns are exactly the final frame: names, count and order."""
-import itertools, json, random, re
+import collections, itertools, json, random, re
 import vlib, relgen, relcheck, starexpand
 from vlib import vh_batch, drv_batch
 from props.c01 import SAFE, FULL, UNDECL
@@ -8,13 +8,22 @@ MANIFEST = dict(
     text="Lean theorems about the mirror of deduplicate_select_items (the step deciding which select items of a block survive): "
          "dedup_sublist (nothing invented or reordered), no_merge (select items with pairwise different identifiers all survive - "
          "true since the repair d06ca49 `fix: deduplicate_select_items compares whole identifiers`; before it t0.a, t0.k, t1.u, t1.k "
-         "lost t1.k, which the first version of this check found as a counterexample), dedup_removes_repetition. Ties: the mirror is compared with the real function through the "
-         "verif hook on all short item lists and random ones; the property itself is checked on the implementation: the column "
+         "lost t1.k, which the first version of this check found as a counterexample), dedup_removes_repetition; and about the mirror of "
+         "translate_wildcards (select list with stars and EXCLUDE sets): wildcards_exact (when every star is requested at most once and the "
+         "known columns of a starred instance are not wildcards, what the select list with its exclusion sets shows is, as a multiset of "
+         "column ids, exactly what was requested), wildcards_exact_emitted (the same when a star's exclusion set is consumed by its first occurrence, as translate_select_items does), "
+         "wildcards_output_sublist (nothing invented, order kept), wildcards_excluded_known (exclusion sets name known columns of their star), wildcards_no_exclude_superset "
+         "(without an exclusion facility nothing requested is lost), wildcards_duplicate_star_counterexample (the same star requested twice "
+         "loses a column: the second flush overwrites the first exclusion set), wildcards_duplicate_star_emitted_counterexample (select {t.*, t.*} "
+         "after a generated column: the second star carries no exclusion and shows the helper column). Ties: the mirrors are compared with the real functions through the "
+         "verif hooks (hook_dedup on all short item lists and random ones; suite `wildcards`: hook_wildcards vs driver op wildcards on every "
+         "request of <= 4 columns over a two-instance schema and on random instances/requests with duplicate original_cids and duplicate "
+         "requests, where the hook's own answer is also judged against the statements of the theorems); the property itself is checked on the implementation: the column "
          "names/count/order SQLite reports for the emitted SQL vs the final frame of the compiler's own RQ (relation.columns) and "
          "the generator's frame, for programs with explicit columns, wildcards, repeated names, joins of tables sharing names, "
          "sort-then-project and take inside group.",
-    note="translate_wildcards / EXCLUDE handling and the alias layer are not mirrored in Lean; they are covered by the result-column "
-         "comparison only. Dialects other than sqlite/generic are compared on the text of the final projection, not executed.",
+    note="The alias layer is not mirrored in Lean (covered by the result-column comparison only); whether the Lowerer's requests "
+         "always satisfy the hypothesis WF of wildcards_exact is not proved (exercised from source by the exclusion stream). Dialects other than sqlite/generic are compared on the text of the final projection, not executed.",
     technique="Lean 4 proofs on the select-item deduplication kernel (hook-level correspondence) + result-column oracle on SQLite", ref="4/C05")
 
 
@@ -38,11 +47,136 @@ def rq_columns(rq):
     return out
 
 
+# ---- translate_wildcards: hook `hook_wildcards` vs driver op `wildcards`, and the property on the hook's answer
+def wc_line(cols, decls, insts):
+    return ("wildcards\t" + " ".join(map(str, cols)) + "\t" + ";".join(f"{d[0]}:{d[1]}" for d in decls if d[2]) + "\t"
+            + ";".join(f"{r}:{' '.join(map(str, cs))}" for r, cs in insts))
+
+
+def wc_text(a):
+    if "output" not in a:
+        return str(a)
+    return " ".join(map(str, a["output"])) + " | " + ";".join(f"{k}:{' '.join(map(str, v))}" for k, v in a["excluded"])
+
+
+def wc_wf(cols, decls, insts):
+    """hypothesis WF of Props.C05.wildcards_exact"""
+    wild = {d[0]: d[1] for d in decls if d[2]}
+    orig = dict((r, cs) for r, cs in insts)
+    ws = [c for c in cols if c in wild]
+    if len(ws) != len(set(ws)):
+        return False
+    return all(x not in wild for w in ws for x in set(orig.get(wild[w], [])) - {w})
+
+
+def wc_shown(decls, insts, out, excluded):
+    wild = {d[0]: d[1] for d in decls if d[2]}
+    orig = dict((r, cs) for r, cs in insts)
+    sh = []
+    for o in out:
+        sh.append(o)
+        if o in wild:
+            sh += [x for x in set(orig.get(wild[o], [])) - {o} if x not in excluded.get(o, [])]
+    return sh
+
+
+def wc_judge(cols, decls, insts, a):
+    """the IMPLEMENTATION's answer against the statements of wildcards_output_sublist / wildcards_excluded_known /
+    wildcards_exact / wildcards_no_exclude_superset; returns a description of the failure or None"""
+    if "output" not in a:
+        return None                      # not an answer of the function (reported by the correspondence)
+    out, it = a["output"], iter(cols)
+    if not all(any(o == c for c in it) for o in out):
+        return f"output {out} is not a sublist of the request {cols}"
+    wild = {d[0]: d[1] for d in decls if d[2]}
+    orig = dict((r, cs) for r, cs in insts)
+    for k, vs in a["excluded"]:                                   # wildcards_excluded_known
+        if k not in wild or not set(vs) <= set(orig.get(wild[k], [])) - {k}:
+            return f"exclusion set {vs} of {k} is not a set of known columns of a star's instance (request {cols})"
+    if not wc_wf(cols, decls, insts):
+        return None
+    sh = wc_shown(decls, insts, out, dict((k, v) for k, v in a["excluded"]))
+    if collections.Counter(sh) != collections.Counter(cols):
+        return f"requested {sorted(cols)} but the select list {out} with exclusions {a['excluded']} shows {sorted(sh)}"
+    if not set(cols) <= set(wc_shown(decls, insts, out, {})):
+        return f"requested {sorted(cols)}: without exclusion sets {out} does not show all of them"
+    return None
+
+
+WC_SMALL = dict(decls=[[0, 0, False], [1, 0, False], [2, 0, True], [3, 1, False], [4, 1, True]],
+                insts=[[0, [0, 1, 2]], [1, [3, 4]]], universe=[0, 1, 2, 3, 4, 5])   # 5 = computed column
+
+
+def wc_random(rng):
+    ninst = rng.randint(1, 3); cid = 0; insts = []; decls = []; allc = []
+    for r in range(ninst):
+        n = rng.randint(0, 4); cs = list(range(cid, cid + n)); cid += n
+        w = None
+        if rng.random() < 0.8:
+            w = cid; cid += 1; decls.append([w, r, True])
+        decls += [[c, r, False] for c in cs]
+        oc = cs + ([w] if w is not None else [])
+        if rng.random() < 0.15 and oc:
+            oc = oc + [rng.choice(oc)]                       # duplicate original_cids
+        rng.shuffle(oc)
+        insts.append([r, oc]); allc += oc
+    ncomp = rng.randint(0, 2); allc += list(range(cid, cid + ncomp))
+    cols = [rng.choice(allc) for _ in range(rng.randint(0, 7))] if allc else []
+    if rng.random() < 0.6:
+        cols = list(dict.fromkeys(cols))                     # no duplicate requests
+    return cols, decls, insts
+
+
+def wildcards_suite(ctx, quick):
+    cases = [("systematic", list(l), WC_SMALL["decls"], WC_SMALL["insts"])
+             for n in range(0, 5) for l in itertools.product(WC_SMALL["universe"], repeat=n)]
+    for _ in range(10000 if quick else 200000):
+        cases.append(("random",) + wc_random(ctx.rng))
+    real = vh_batch([{"op": "hook_wildcards", "cols": c, "decls": d, "instances": i} for _, c, d, i in cases])
+    if real and real[0].get("no_hooks"):
+        return False
+    mod = drv_batch([wc_line(c, d, i) for _, c, d, i in cases])
+    nbad = nwf = 0
+    for (label, c, d, i), a, m in zip(cases, real, mod):
+        wilds = {x[0] for x in d if x[2]}
+        stars = [x for x in c if x in wilds]
+        ctx.case(("wildcards", c, d, i), nontrivial=bool(stars) and len(c) >= 2)
+        ctx.count(f"translate_wildcards:{label}")
+        rep = {"suite": "wildcards", "cols": c, "decls": d, "instances": i, "real": a, "model": m}
+        if wc_text(a) != m:
+            nbad += 1
+            if nbad > 3:                                           # keep room for failing inputs in the violation list
+                ctx.disagreements += 1
+            else:
+                ctx.disagreement("translate_wildcards", f"cols {c} decls {d} instances {i}: real {wc_text(a)!r}, mirror {m!r}", rep)
+        if wc_wf(c, d, i):
+            nwf += 1
+            ctx.count("translate_wildcards:hypothesis WF holds")
+        elif len(stars) != len(set(stars)):
+            ctx.count("translate_wildcards:same star requested twice (outside WF)")
+        if a.get("excluded"):
+            ctx.count("translate_wildcards:with exclusion set")
+        if "output" in a and len(a["output"]) < len(c):
+            ctx.count("translate_wildcards:column absorbed by a star")
+        bad = wc_judge(c, d, i, a)
+        if bad:
+            ctx.oracle_failure("wildcards-not-exact", "translate_wildcards: " + bad, rep)
+        elif len(ctx.samples) < 2 and label == "random" and a.get("excluded") and len(a.get("output", [])) + 2 <= len(c):
+            ctx.sample({"translate_wildcards": {"cols": c, "wildcards": sorted(wilds), "instances": i}, "output": a["output"], "excluded": a["excluded"]})
+    ctx.obligation("correspondence: translate_wildcards (hook) = Model.Wildcards.run", nbad == 0,
+                   f"{len(cases)} requests ({nwf} satisfy WF and were also judged against wildcards_exact on the hook's own answer)")
+    return True
+
+
 def run(ctx):
-    br = vlib.standard_proof_obligations(ctx, ["PrqlModel.Props.C05"], [],
-        required_theorems=["dedup_sublist", "no_merge", "no_merge_from", "dedup_removes_repetition", "kept_length"])
+    br = vlib.standard_proof_obligations(ctx, ["PrqlModel.Props.C05", "PrqlModel.Lemmas.Wildcards", "PrqlModel.Model.Wildcards"], [],
+        required_theorems=["dedup_sublist", "no_merge", "no_merge_from", "dedup_removes_repetition", "kept_length",
+                           "wildcards_exact", "wildcards_output_sublist", "wildcards_no_exclude_superset",
+                           "wildcards_duplicate_star_counterexample", "exEnv_wf",
+                           "wildcards_exact_emitted", "wildcards_duplicate_star_emitted_counterexample", "wildcards_excluded_known"])
     ctx.rule = ("(i) deduplicate_select_items: every list of <= 4 items over a 4-identifier alphabet (compound 1-2 parts / alias / other) "
-                "exhaustively + random longer lists, real function (hook) vs Lean mirror; (ii) generated programs x databases: names, "
+                "exhaustively + random longer lists, real function (hook) vs Lean mirror; translate_wildcards: every request of <= 4 column ids "
+                "over {2 known + star, 1 known + star, 1 computed} + random instances/requests, hook vs mirror and hook vs theorem statements; (ii) generated programs x databases: names, "
                 "count and order of the SQLite result columns vs the RQ's final frame; non-trivial = compiled, executed, >= 2 columns")
     if not (br.cargo_ok and br.drv_ok):
         return
@@ -67,6 +201,9 @@ def run(ctx):
                 ctx.disagreement("deduplicate_select_items", f"items {l}: real keeps {a.get('kept')}, mirror keeps {mk}", {"items": l, "real": a, "model": m})
         ctx.count("dedup-lists", len(lists))
         ctx.obligation("correspondence: deduplicate_select_items (hook) = Model.Projection.kept", nbad == 0, f"{len(lists)} item lists")
+        if not wildcards_suite(ctx, quick):
+            ctx.count("hook_wildcards-unavailable")
+            ctx.coverage_extra["hook_suites"] = "wildcards skipped: the harness has no hook_wildcards"
     else:
         ctx.count("hooks-unavailable")
         ctx.coverage_extra["hook_suites"] = "skipped: /repo does not build with feature `verif`"
@@ -209,5 +346,13 @@ def run(ctx):
 
 
 def replay(obj):
+    r = obj.get("replay", obj)
+    if r.get("suite") == "wildcards":
+        c, d, i = r["cols"], r["decls"], r["instances"]
+        a = vh_batch([{"op": "hook_wildcards", "cols": c, "decls": d, "instances": i}])[0]
+        m = drv_batch([wc_line(c, d, i)])[0]
+        print(json.dumps({"cols": c, "decls": d, "instances": i, "recorded": {"real": r.get("real"), "model": r.get("model")}}, indent=1))
+        print("now: real", wc_text(a), "| model", m, "| WF", wc_wf(c, d, i), "| judged:", wc_judge(c, d, i, a) or "ok")
+        return 0
     from props import c01
     return c01.replay(obj)
